@@ -43,7 +43,8 @@ type behaviour struct {
 	SleepMs       int    `json:"sleepMs"`
 	ChildSleep    int    `json:"childSleepMs"` // spawn a descendant holding the pipes
 	ChildPidFile  string `json:"childPidFile"`
-	ChildDetached bool   `json:"childDetached"` // the descendant leaves the plugin's session and process group (setsid), as a daemonising helper does
+	ChildDetached bool   `json:"childDetached"` // the descendant leaves the plugin's session and process group (setsid)
+	LingerMs      int    `json:"lingerMs"`      // after writing the complete output: stay alive that long before exiting
 	Marker        string `json:"marker"`
 }
 
@@ -163,6 +164,17 @@ func main() {
 	}
 	pad(os.Stdout, b.Stdout, b.PadStdout, b.PadStdoutKey)
 	pad(os.Stderr, b.Stderr, b.PadStderr, b.PadStderrKey)
+	if b.LingerMs > 0 {
+		os.Stdout.Sync()
+		stop := filepath.Join(filepath.Dir(exe), "stop")
+		end := time.Now().Add(time.Duration(b.LingerMs) * time.Millisecond)
+		for time.Now().Before(end) {
+			time.Sleep(25 * time.Millisecond)
+			if _, err := os.Stat(stop); err == nil {
+				break
+			}
+		}
+	}
 	if b.Kill {
 		syscall.Kill(os.Getpid(), syscall.SIGKILL)
 		time.Sleep(10 * time.Second)
